@@ -28,10 +28,12 @@ scenario == <<Catalogue, Running, Fault>>
 vars == <<Catalogue, Running, Fault, pc, exe, sel, out>>
 
 Rel(ver, draft, pre, plat, sums) == [ver |-> ver, draft |-> draft, pre |-> pre, plat |-> plat, sums |-> sums]
-\* plat: "good" | "corrupt" (not an archive) | "badmember" (archive without the executable) | "none" (other platforms only)
+\* plat: "good" | "corrupt" (not an archive) | "badmember" (archive without the executable)
+\*       | "none" (another operating system only) | "otherarch" (this OS, another architecture only)
+\*       | "archfirst" (an asset for another architecture is listed before the right one)
 \* sums: "match" | "mismatch" | "otherfile" (entry for another file only) | "malformed" | "missing"
 
-Usable(r)    == ~r.draft /\ ~r.pre /\ r.plat # "none"
+Usable(r)    == ~r.draft /\ ~r.pre /\ r.plat \notin {"none", "otherarch"}
 Candidates   == { i \in 1..Len(Catalogue) : Usable(Catalogue[i]) /\ Catalogue[i].sums # "missing" }
 \* releases that would be candidates if their checksum file were there
 Unvalidated  == { i \in 1..Len(Catalogue) : Usable(Catalogue[i]) /\ Catalogue[i].sums = "missing" }
@@ -73,7 +75,7 @@ Verify == /\ pc = "verify"
              ELSE Fail("checksum")
 
 Replace == /\ pc = "replace"
-           /\ IF Catalogue[sel].plat = "good"
+           /\ IF Catalogue[sel].plat \in {"good", "archfirst"}
               THEN exe' = Catalogue[sel].ver /\ pc' = "done" /\ out' = "updated" /\ UNCHANGED sel
               ELSE Fail("unpack")
 
@@ -87,7 +89,7 @@ Integrity == exe # 0 =>
     /\ exe > Running
     /\ \E i \in 1..Len(Catalogue) :
          /\ Catalogue[i].ver = exe /\ Usable(Catalogue[i])
-         /\ Catalogue[i].plat = "good" /\ Catalogue[i].sums = "match"
+         /\ Catalogue[i].plat \in {"good", "archfirst"} /\ Catalogue[i].sums = "match"
 Reported  == (pc = "done" /\ exe = 0) => out # "updated"
 OnlyOnce  == [][exe # 0 => exe' = exe]_vars
 =============================================================================
